@@ -1896,6 +1896,7 @@ class Cluster(object):
 
         have_future = False
         futures = set()
+        pool_futures = []
         try:
             log.info("Host %s may be up; will prepare queries and open connection pool", host)
 
@@ -1925,11 +1926,15 @@ class Cluster(object):
                 future = session.add_or_renew_pool(host, is_host_addition=False)
                 if future is not None:
                     have_future = True
-                    future.add_done_callback(callback)
-                    futures.add(future)
+                    pool_futures.append(future)
+            # the completion callback decides by the set being empty: fill it
+            # before any callback can run
+            futures.update(pool_futures)
+            for future in pool_futures:
+                future.add_done_callback(callback)
         except Exception:
             log.exception("Unexpected failure handling node %s being marked up:", host)
-            for future in futures:
+            for future in pool_futures:
                 future.cancel()
 
             self._cleanup_failed_on_up_handling(host)
